@@ -16,7 +16,7 @@ META = {
              "points and one experiment repetition; distinct by input hash; non-trivial = the list contains a 0 or a 1 and another value"),
     "assumptions": ["both sides are library code; the oracle is their agreement as stated (heralded, stabilizer+projected, calibration, cycle length; 0-round exception)"],
     "floors": {
-        "quick": {"experiments": 380, "order_kernel_first": 80, "long_round_blocks": 3, "custom_index_maps": 30, "prior_kernel_same_rounds": 120, "all_qubits_queried_first": 120, "order_kernel_between_two_circuits": 80, "ancillas_compared": 600, "zero_round_blocks": 80, "one_round_blocks": 80},
+        "quick": {"handed_rounds_lists_changed": 60, "experiments": 380, "order_kernel_first": 80, "long_round_blocks": 3, "custom_index_maps": 30, "prior_kernel_same_rounds": 120, "all_qubits_queried_first": 120, "order_kernel_between_two_circuits": 80, "ancillas_compared": 600, "zero_round_blocks": 80, "one_round_blocks": 80},
         "thorough": {"experiments": 3900, "ancillas_compared": 6000, "zero_round_blocks": 800, "one_round_blocks": 800},
     },
 }
@@ -36,6 +36,7 @@ def gen_input(rng: random.Random) -> Dict[str, Any]:
         inp["rounds"] = list(dict.fromkeys(inp["rounds"]))
     inp["order"] = rng.choice(["circuit_first", "kernel_first", "kernel_between_two_circuits"])
     inp["query_all_first"] = rng.random() < 0.5
+    inp["edit_handed_rounds"] = rng.choice([None, None, "sort", "reverse", "clear"])
     inp["prior_kernel_same_rounds"] = rng.random() < 0.5
     return inp
 
@@ -52,14 +53,17 @@ def check_input(inp: Dict[str, Any], acc: Acc):
     rounds = inp["rounds"]
     description = libgen.description_of(inp)
     ids_before = ([q.id for q in description.data_qubit_ids], [q.id for q in description.ancilla_qubit_ids])
+    # kernel and circuit are each handed their own list object, which the caller re-uses (sorts / reverses / empties) once both exist:
+    # the experiment they describe is the one at construction (seeded changes C12-r11 / C13-r12: getters reading the caller's live list)
+    handed_kernel, handed_circuit = list(rounds), list(rounds)
 
     def make_kernel():
-        return RepetitionExperimentKernel(rounds=rounds, heralded_initialization=True, qutrit_calibration_points=True,
+        return RepetitionExperimentKernel(rounds=handed_kernel, heralded_initialization=True, qutrit_calibration_points=True,
                                           involved_data_qubit_ids=description.data_qubit_ids, involved_ancilla_qubit_ids=description.ancilla_qubit_ids,
                                           experiment_repetitions=1)
 
     def make_circuit():
-        return construct_repetition_code_multi_round_circuit(qec_cycles=rounds, description=description, initial_state=libgen.initial_state_of(inp))
+        return construct_repetition_code_multi_round_circuit(qec_cycles=handed_circuit, description=description, initial_state=libgen.initial_state_of(inp))
 
     # other experiments of the same process: a kernel for the same rounds on a smaller, differently named register is built first
     if inp.get("prior_kernel_same_rounds"):
@@ -84,6 +88,12 @@ def check_input(inp: Dict[str, Any], acc: Acc):
     else:
         circuit = make_circuit()
         kernel = make_kernel()
+    if inp.get("edit_handed_rounds"):
+        for lst in (handed_kernel, handed_circuit):
+            {"sort": lst.sort, "reverse": lst.reverse, "clear": lst.clear}[inp["edit_handed_rounds"]]()
+        acc.count("handed_rounds_lists_edited")
+        if handed_kernel != list(rounds):
+            acc.count("handed_rounds_lists_changed")
     ids_after = ([q.id for q in description.data_qubit_ids], [q.id for q in description.ancilla_qubit_ids])
     if ids_after != ids_before:
         acc.finding("description/changed", "constructing the kernel / circuit changed the qubit lists of the description", case, {"before": ids_before, "after": ids_after})
